@@ -102,14 +102,15 @@ async def _member(case, spec, tag, obs, c, loop, net, ctl):
         auto_commit_interval_ms=cfg.get("auto_commit_interval_ms", 200), auto_offset_reset="earliest",
         partition_assignment_strategy=make_assignors(cfg["assignors"], tag), fetch_max_wait_ms=50,
         metadata_max_age_ms=cfg.get("metadata_max_age_ms", 1000), max_poll_records=spec.get("max_poll_records"),
+        max_poll_interval_ms=cfg.get("max_poll_interval_ms", 300000),
         isolation_level="read_uncommitted")
     m["consumer"] = consumer
 
     class L(ConsumerRebalanceListener):
         async def on_partitions_revoked(self, revoked):
             obs.ev(loop, "revoked_begin", tag, tps=sorted(tpk(*tp) for tp in revoked))
-            if spec.get("callback_delay"):
-                await asyncio.sleep(spec["callback_delay"])
+            if spec.get("revoke_delay", spec.get("callback_delay")):
+                await asyncio.sleep(spec.get("revoke_delay", spec.get("callback_delay")))
             obs.ev(loop, "revoked_end", tag)
 
         async def on_partitions_assigned(self, assigned):
